@@ -252,7 +252,7 @@ func c04R2(p *engine.Prog, r *engine.Report) {
 		}
 		ok := len(gs) > 0
 		for _, ret := range succ {
-			if !engine.OnlyThroughPass(vt, ret.Block(), gs) {
+			if !engine.OnlyThroughPassRet(vt, ret, gs) {
 				ok = false
 			}
 		}
@@ -265,7 +265,7 @@ func c04R2(p *engine.Prog, r *engine.Report) {
 		}
 		ok := len(gs) > 0
 		for _, ret := range succ {
-			if !engine.OnlyThroughPass(vt, ret.Block(), gs) {
+			if !engine.OnlyThroughPassRet(vt, ret, gs) {
 				ok = false
 			}
 		}
@@ -283,7 +283,7 @@ func c04R2(p *engine.Prog, r *engine.Report) {
 			gs := nilErrGuards(vt, cc)
 			okV = len(gs) > 0
 			for _, ret := range succ {
-				if !engine.OnlyThroughPass(vt, ret.Block(), gs) {
+				if !engine.OnlyThroughPassRet(vt, ret, gs) {
 					okV = false
 				}
 			}
@@ -420,7 +420,7 @@ func c04R3(p *engine.Prog, r *engine.Report) {
 		})
 		ok := len(g) > 0
 		for _, ret := range successReturns(f) {
-			if !engine.OnlyThroughPass(f, ret.Block(), g) {
+			if !engine.OnlyThroughPassRet(f, ret, g) {
 				ok = false
 			}
 		}
